@@ -56,6 +56,7 @@ fn concurrent_ride_along(tape: &mut Tape, ctx: &RunCtx) -> RunOut {
         preexisting: true,
         clock_small: true,
         sampled_faults: false,
+        clock_jump: false,
         debris: true,
         focus: 4,
     };
@@ -109,7 +110,7 @@ impl Check for C03 {
         "fault_enumeration"
     }
     fn rule(&self) -> String {
-        "every publishing path {Cache::set, put, set_temp_file, put_temp_file, ensure miss, get_or_update miss / Replace on a primary or secondary hit / Promote from a plain or sharded read-only level; raw plain/sharded set/put as the auto_sync-off baseline} x {plain, sharded} write side x pre-states of C02 (incl. maintenance in the same call) x value size (multi-chunk) x auto_sync on/off, sampled by seed. Oracle over the complete call trace, per inode: at each publication (rename/link onto a key name in the write cache) the inode's dirty bit is clear when auto_sync is on (a successful fsync/fdatasync follows its last write/truncate), its mode has no write bit, and afterwards it is never written, truncated or re-moded. Then every fsync of the fault-free trace fails in turn with EIO/ENOSPC/EDQUOT: the call must fail (or panic with the documented message) and that inode must never be published in the run. One run in 40 is instead a concurrent run (2-3 participants on a stacked cache with auto_sync, capacities 0-2 so that every write evicts, an adversary deleting published files) judged by the same publication oracle. evaluations = scenarios; non-trivial = at least one publication with auto_sync on; distinct = scenario signature".to_string()
+        "every publishing path {Cache::set, put, set_temp_file, put_temp_file, ensure miss, get_or_update miss / Replace on a primary or secondary hit / Promote from a plain or sharded read-only level; raw plain/sharded set/put as the auto_sync-off baseline} x {plain, sharded} write side x pre-states of C02 (incl. maintenance in the same call) x value size (multi-chunk) x auto_sync on/off, sampled by seed. Oracle over the complete call trace, per inode: at each publication (rename/link onto a key name in the write cache) the inode's dirty bit is clear when auto_sync is on (a successful fsync/fdatasync follows its last write/truncate), its mode has no write bit, and afterwards it is never written, truncated or re-moded. Then every fsync of the fault-free trace fails in turn with EIO/ENOSPC/EDQUOT: the call must fail (or panic with the documented message) and that inode must never be published in the run; and every rename/link onto a key name fails once in turn with EXDEV/ENOENT/EIO/ENOSPC/EACCES, whatever the retry or fallback path then publishes being held to the same per-inode oracle. One run in 40 is instead a concurrent run (2-3 participants on a stacked cache with auto_sync, capacities 0-2 so that every write evicts, an adversary deleting published files) judged by the same publication oracle. evaluations = scenarios; non-trivial = at least one publication with auto_sync on; distinct = scenario signature".to_string()
     }
     fn runs(&self, tier: Tier) -> u64 {
         match tier {
@@ -174,6 +175,34 @@ impl Check for C03 {
                         v.detail.extend(trace_tail(&ex.trace, 80));
                         out.violation = Some(v);
                         break 'f;
+                    }
+                }
+            }
+        }
+        // failed publication: each rename/link onto a key name fails once, so
+        // that whatever retry or fallback path the call has runs; what that
+        // path publishes is held to the same per-inode oracle
+        let pubs_calls: Vec<u64> = ex0.trace.iter().filter(|r| r.proc == 0 && r.lib && matches!(r.kind, K::Rename | K::Link) && matches!(classify(&sc.dirs, &r.path2), Loc::Key { .. })).map(|r| r.call_index).collect();
+        if out.violation.is_none() {
+            'p: for idx in pubs_calls.iter() {
+                for errno in [libc::EXDEV, libc::ENOENT, libc::EIO, libc::ENOSPC, libc::EACCES] {
+                    let (target, e) = (*idx, errno);
+                    let mut ex = execute(&sc, |w| {
+                        w.sim.lock().injector = Some(Box::new(move |info, _t| if info.proc == 0 && info.call_index == target { Some(e) } else { None }));
+                    });
+                    ex.w.leave();
+                    out.steps += ex.w.sim.lock().step;
+                    out.count(&format!("fault:Publish/{}", errno_name(e)), 1);
+                    if ex.res.panic.is_some() {
+                        continue; // C18's business
+                    }
+                    if let Some(mut v) = judge_pubs(&sc, &ex, auto_sync) {
+                        v.msg = format!("after the publication call #{} failed once with {}: {}", idx, errno_name(e), v.msg);
+                        v.detail.push(sc.desc.clone());
+                        v.detail.push(format!("result: {}", ex.res.short()));
+                        v.detail.extend(trace_tail(&ex.trace, 80));
+                        out.violation = Some(v);
+                        break 'p;
                     }
                 }
             }
